@@ -858,6 +858,10 @@ impl<'a> Trace<'a> {
         if (73..=75).contains(&roll) && self.rng.gen_bool(0.8) {
             roll = 0;
         }
+        // ... but on an already terminal migration the policy mutators are what must stay inert
+        if model::terminal(self.state.status()) && self.rng.gen_bool(0.35) {
+            roll = if self.rng.gen_bool(0.5) { 73 } else { 75 };
+        }
         match roll {
             0..=37 => {
                 let k = match self.rng.gen_range(0..25) {
